@@ -72,6 +72,7 @@ func judgeDangling(run *vc.Run, c *danglingCase, explain bool) {
 	run.Seen("mutation_classes", c.mut.Class)
 	run.Distinct("dangling|" + c.mut.Class + "|" + c.profile + "|" + c.mutant.Status)
 	run.Count("mutants_"+c.mutant.Status, 1)
+	run.Count("mutants "+c.mut.Class+" "+c.mutant.Status, 1)
 	switch c.mutant.Status {
 	case "rejected":
 		if strings.TrimSpace(c.mutant.Errors) == "" {
